@@ -155,7 +155,8 @@ class World:
         lo = em.line
         cur = ind
         for t in toks:
-            if multi and cur.strip() and rng.random() < 0.35:
+            # (a line break directly after an opening parenthesis is its own lexer path: likelier than elsewhere)
+            if multi and cur.strip() and rng.random() < (0.7 if cur.rstrip().endswith('(') else 0.35):
                 em.put(cur); cur = ind + '    '
                 if rng.random() < 0.2: em.put(ind + '    // inside a statement')
             cur += t + ' '
@@ -178,7 +179,9 @@ class World:
         if s.kind in ('simple', 'long', 'call', 'catch', 'litdef', 'eval', 'ret', 'lit', 'boom'):
             s.mid = self.mid()
             toks = ['M(%d);' % s.mid]
-            if s.kind == 'simple': toks += [gv, '=', gv, '+', '1', ';']
+            if s.kind == 'simple':
+                # sometimes with parentheses, so that a multi-line statement can break right after a "("
+                toks += [gv, '=', gv, '+', '1', ';'] if rng.random() < 0.6 else [gv, '=', '(', gv, '+', '(', '1', ')', ')', ';']
             elif s.kind == 'long': toks += ['ga', '=', '({'] + [('%d,' % (i % 97)) for i in range(s.n)] + ['});']
             elif s.kind == 'boom':
                 toks += {'div': [gv, '=', gv, '/', 'zero', ';'], 'error': ['error(', '"boom\\n"', ');'], 'index': ['ga', '=', '({', '1', '})', '[', 'zero', '+', '3', ']', ';'], 'undef': [gv, '=', gv, '+', 'ga', '[', '100000', ']', ';'],
